@@ -574,6 +574,16 @@ func (a *Agent) handleUDPOpenAck(peerID identity.AgentID, frame *protocol.Frame)
 		return
 	}
 
+	// An association is keyed exactly once. A repeated or replayed ack must not
+	// re-derive the key: the ephemeral private key was wiped after the first
+	// derivation, and a fresh SessionKey would restart the nonce counters.
+	dest.mu.RLock()
+	keyed := dest.SessionKey != nil
+	dest.mu.RUnlock()
+	if keyed {
+		return
+	}
+
 	// Compute session key from the ephemeral keys. End-to-end encryption is
 	// mandatory: an ack without an ephemeral key fails the association instead
 	// of switching it to plaintext.
